@@ -15,7 +15,7 @@ SIMSRC  := $(wildcard sim/*.cc)
 ASAN_FLAGS  := -O1 -g -fno-omit-frame-pointer -fsanitize=address -fsanitize=bounds,null,return,unreachable,vptr -fno-sanitize-recover=bounds,null,return,unreachable,vptr
 PLAIN_FLAGS := -O2 -g
 
-WRAP := -Wl,--wrap=time -Wl,--wrap=srand -Wl,--wrap=rand -Wl,--wrap=random
+WRAP := -Wl,--wrap=time -Wl,--wrap=srand -Wl,--wrap=rand -Wl,--wrap=random -Wl,--wrap=malloc -Wl,--wrap=realloc
 
 define FLAVOUR
 $(1)_LIBOBJ := $$(patsubst $(REPO)/src/%.cc,$(B)/$(1)/lib/%.o,$$(LIBSRC))
